@@ -9,13 +9,13 @@ hook_commits = [l.split()[0] for l in hooks if 'verif hook' in l]
 T = {
  'C01': ("RLE: govc proves, for all inputs, the encoder object invariant (run/literal state machine never overruns its 132-byte buffer), no panic in any RLE function, even encoded length, header offsets even/ascending/in range, decoder bounds for arbitrary data and frame descriptions, decoded length = frame size rounded to even, and termination of every loop; decode(encode(s)) = s itself and the independent PackBits reading are a bounded stand-in (exhaustive short strings, run/literal boundary sweep, frame grid).",
          "contracts + loop invariants on rle.go discharged by SMT; bounded content identity"),
- 'C02': ("JPEG Lossless: a pair lemma over ONE iteration of the real encodeScan loop body and ONE iteration of the real decodeScan loop body proves, for every precision 2..16, every predictor (symbolic), every position and every neighbourhood, that the decoder stores exactly the encoder's source sample given the same difference; the difference category coder is proved against T.81 F.1.2.1/F.2.2.1 and its encoder/decoder pair is proved inverse for all 65536 differences; Huffman table construction, bit I/O and whole-image composition are bounded stand-ins.",
+ 'C02': ("JPEG Lossless: a pair lemma over ONE iteration of the real encodeScan loop body and ONE iteration of the real decodeScan loop body proves, for every precision 2..16, every predictor (symbolic), every position and every neighbourhood, that the decoder stores exactly the encoder's source sample given the same difference; the difference category coder is proved against T.81 F.1.2.1/F.2.2.1 and its encoder/decoder pair is proved inverse for all 65536 differences; the same per-sample pair lemma is proved for the first-order-prediction (SV1) codec, including that the encoder's left-neighbour cache equals the sample just coded; Huffman table construction, bit I/O and whole-image composition are bounded stand-ins.",
          "relational (pair) lemmas over real loop bodies + function contracts, SMT; bounded Huffman/bit layer"),
  'C03': ("JPEG-LS lossless: pair lemma encodeRegularSample ~ decodeRegularSample for every bit depth 2..16 (decoded sample = source, contexts evolve in lockstep), every scalar helper proved against its T.87 spec function (MED predictor, error mapping, modulo reduction, context update A.12/A.13, Golomb parameter, reconstruction); the Golomb bit layer is an assumed channel contract backed by an exhaustive bounded test; run mode and whole images are bounded stand-ins.",
          "pair lemma + function contracts against T.87 spec functions, SMT; bounded Golomb/run mode"),
  'C04': ("JPEG 2000 reversible path: the reversible colour transform pair is proved inverse (scalar and array forms); the 5/3 lifting is proved, for every signal length and both parities, to compute exactly the T.800 Annex F predict/update formulas in the code's own 32-bit arithmetic (forward and inverse, quantified loop invariants), and a composition lemma over the two proved contracts shows inverse(forward(x)) = x for all samples within +-2^28; the tile-grid functions and the layer/pass bookkeeping are proved; T1/MQ/T2, the 2-D/multi-level drivers and the 3700-line encoder are outside the SMT subset and are covered by bounded round trips over the configuration lattice.",
          "contracts + quantified loop invariants on RCT and 5/3 lifting, sequential pair (composition) lemma, SMT with generator-side quantifier instantiation; bounded codec round trips"),
- 'C05': ("JPEG 2000 lossless syntaxes: finalizeBlock / finalizeRDCodeBlockLayers / appendRDLosslessLayer are proved, for an ARBITRARY rate allocation and any number of layers, to give the final lossless layer all coding passes and a byte range of the complete bitstream that ends exactly at the last pass (nothing of a code-block is dropped), with every index in bounds; parameter mapping, allocator monotonicity and the codec round trip over the parameter lattice are bounded stand-ins.",
+ 'C05': ("JPEG 2000 lossless syntaxes: finalizeBlock / finalizeRDCodeBlockLayers / appendRDLosslessLayer are proved, for an ARBITRARY rate allocation and any number of layers, to give the final lossless layer all coding passes and a byte range of the complete bitstream that ends exactly at the last pass (nothing of a code-block is dropped), with every index in bounds; the codec's parameter mapping is proved to stay on the reversible path and, when a rate target is combined with AppendLosslessLayer, to request at least one layer above the rate-limited ones; allocator monotonicity and the codec round trip over the parameter lattice are bounded stand-ins.",
          "contracts with quantified pre-conditions on the real layer-finalisation functions, SMT; bounded parameter lattice"),
  'C06': ("HTJ2K lossless: the Scup locator (last 12 bits of the cleanup segment) writer and parser are proved inverse for every legal suffix length and the parser is proved panic-free for every byte string; the HT cleanup block coder, MEL/VLC tables and the codec round trip (sizes, block sizes, levels, the 14 third-party fixtures) are bounded stand-ins.",
          "pair lemma + contracts on the Scup locator, SMT; bounded HT block coder and fixtures"),
@@ -25,15 +25,15 @@ T = {
          "post-condition of the real kernel under symbolic NEAR + encoder/decoder pair lemma + header contracts, SMT; bounded Golomb/run mode"),
  'C08': ("No decoder panics: a zero-annotation safety sweep generates every index/slice/nil/division/shift/make/panic obligation of every decoder-side function under an empty pre-condition (all parameters and the heap symbolic); the obligations discharged on the pinned tree are the committed baseline and must stay discharged; functions under contract are fully proved, among them RLE, the Huffman category coder, the JPEG-LS helpers and run-length scanner, the JPEG 2000 codestream parser primitives (cursor stays inside the input), SIZ/COD validation (what a parsed header guarantees downstream) and the decoder's stream-state reset (no stale state can index the next image's components); bounded truncation/corruption sweeps of every decoder stand in for the rest.",
          "safety obligations from SSA with empty pre-conditions, SMT, baseline comparison; contracts on parser primitives and header validation; bounded corruption sweeps"),
- 'C09': ("Bounded time/memory: every JPEG 2000 parser primitive is proved to move the cursor forward by exactly what it read (a marker segment with a length below 2 is an error, so the main-header loop cannot step backwards), the tile-data scan and the SIZ/COD parsers are proved to terminate (loop variants), a SIZ that is returned is proved to satisfy the A.5.1 constraints the allocator relies on, a second SIZ is proved to be rejected, and the tile rectangle a tile decoder sizes its buffers from is proved to lie inside the declared image and inside one tile; loop variants are proved for every other loop of the functions under contract on the decoder side; wall-clock time and heap cannot be expressed by contracts; bounded corruption sweeps with a watchdog and allocation accounting stand in.",
+ 'C09': ("Bounded time/memory: every JPEG 2000 parser primitive is proved to move the cursor forward by exactly what it read (a marker segment with a length below 2 is an error, so the main-header loop cannot step backwards), the tile-data scan and the SIZ/COD parsers are proved to terminate (loop variants), a SIZ that is returned is proved to satisfy the A.5.1 constraints the allocator relies on, a second SIZ is proved to be rejected, and the tile rectangle a tile decoder sizes its buffers from is proved to lie inside the declared image and inside one tile; the tile assembler's planes are proved to be sized from the declared image area (not the reference-grid extents) and the Part-2 MCT array decoders are proved to allocate nothing larger than the bytes their segment carries (allocation-bound obligations on every make); loop variants are proved for every other loop of the functions under contract on the decoder side; wall-clock time and heap cannot be expressed by contracts; bounded corruption sweeps with a watchdog and allocation accounting stand in.",
          "progress/termination contracts and header-validation post-conditions proved by SMT; bounded watchdog sweeps"),
- 'C10': ("Codec contract: footprint obligations over the whole module prove that no function that can see (an alias of) a caller-owned input buffer writes through it, and that no library function consults clock, randomness, environment or (un-reviewed) map order; jpeg2000.Decoder is proved to clear every stream-derived field before each Decode and after a failed one (no history dependence through MCT bindings, ROI state or component buffers); decoded RLE length is proved; frame order/1:1, history independence of reused encoder objects and decoded sizes for the other syntaxes are bounded stand-ins.",
+ 'C10': ("Codec contract: footprint obligations over the whole module prove that no function that can see (an alias of) a caller-owned input buffer writes through it, and that no library function consults clock, randomness, environment or (un-reviewed) map order; jpeg2000.Decoder is proved to clear every stream-derived field before each Decode and after a failed one (no history dependence through MCT bindings, ROI state or component buffers); decoded RLE length is proved; frame order/1:1, history independence of reused encoder objects (including parameters changed between calls) and decoded sizes for the other syntaxes are bounded stand-ins.",
          "whole-module footprint (frame) analysis over SSA + contracts; bounded histories"),
  'C13': ("T.81 conformance: Predictor is proved equal to Table H.1, predictSample to the H.1.2.1 edge rules, the category/EXTEND coder to F.1.2.1/F.2.2.1, modulo-2^16 reconstruction by the pair lemma; spec functions are transcribed from the standard; an independent reference codec runs in the bounded stand-in.",
          "function contracts against spec functions transcribed from T.81, SMT; bounded reference codec"),
  'C14': ("T.87 conformance: every scalar helper (MED, error mapping, modulo reduction, quantisation, reconstruction, A.12/A.13 update, Golomb parameter, bias correction) is proved equal to its spec function transcribed from T.87; an independent T.87 decoder and lossless==near(0) byte identity run as bounded stand-ins.",
          "function contracts against spec functions transcribed from T.87, SMT; bounded independent decoder"),
- 'C16': ("Well-formed streams: WriteSegment's length field is proved to equal payload+2 (pre-condition payload <= 65533); the frame headers of every JPEG-family encoder (SOF0, SOF1, SOF3 x2, SOF55 x2) are proved to carry exactly the encoder's precision/height/width/components, the JPEG-LS scan headers to carry NEAR/ILV; the JPEG 2000 SIZ segment is proved byte-exact for all parameters (marker, Lsiz, Rsiz, Xsiz..YTOsiz, Csiz and every Ssiz/XRsiz/YRsiz), the COD segment's length, layers, levels, HT bit and wavelet are proved; RLE length/header facts are proved; the whole-stream structure is checked by independent strict marker walkers in the bounded stand-in.",
+ 'C16': ("Well-formed streams: WriteSegment's length field is proved to equal payload+2 (pre-condition payload <= 65533); the frame headers of every JPEG-family encoder (SOF0, SOF1, SOF3 x2, SOF55 x2) are proved to carry exactly the encoder's precision/height/width/components, the JPEG-LS scan headers to carry NEAR/ILV; the JPEG 2000 SIZ segment is proved byte-exact for all parameters (marker, Lsiz, Rsiz, Xsiz..YTOsiz, Csiz and every Ssiz/XRsiz/YRsiz), the COD segment's length, layers, levels, HT bit and wavelet are proved; the Huffman bit writer is proved never to leave an unescaped 0xFF as the last byte handed to the sink (writeByte, WriteBits, Flush: the 1-padded final byte is stuffed like any other); RLE length/header facts are proved; the whole-stream structure is checked by independent strict marker walkers in the bounded stand-in.",
          "contracts with ghost output bytes / exact buffer contents, SMT; bounded strict marker walkers"),
  'C17': ("Encoders reject unrepresentable input: every JPEG-family entry point (baseline, extended incl. the 12-bit path, lossless, SV1, JPEG-LS lossless and near-lossless) is proved to return an error for dimensions outside 1..65535, unsupported component counts, precision or quality out of range, NEAR outside 0..min(255, MAXVAL/2) and pixel buffers shorter than the frame, and what reaches the header writers is proved to fit their fields (call-site pre-conditions); zero-annotation safety sweep over every encoder-side function (empty pre-conditions); RLE encoder fully proved incl. the 15-segment limit; the argument lattice at API level is a bounded stand-in.",
          "rejection post-conditions on the real entry points + call-site pre-conditions of header writers, SMT; safety sweep; bounded argument lattice"),
